@@ -1,7 +1,7 @@
 """psv.props — which rules decide which property."""
 from . import core
 from .report import Check
-from .rules import cw, ed
+from .rules import cw, ed, mt
 
 
 def c18(tier):
@@ -38,7 +38,23 @@ def c08(tier):
     return C.finish()
 
 
-TABLE = {"C18": c18, "C08": c08}
+def c12(tier):
+    C = Check("C12", tier,
+              explanation="Monitor discipline of the coordinator/worker hand-shake in cholesky_solve.c decided by a disjunctive forward dataflow "
+              "(lock held, predicate tested since acquisition, store not yet broadcast, all-idle phase; path-sensitive on constant locals) over the "
+              "CFGs of walk_descents and evaluate_descent: lockset (MT-1), wait predicate / no lost wake-up (MT-2), signal after store (MT-3), "
+              "hand-off of worker-owned fields (MT-4), lifecycle (MT-5), completion-order independence of the selection (MT-6), read-only use of "
+              "objects shared by all workers (MT-7). Decides the protocol shape; equality of results across worker counts is argued, not decided; "
+              "races inside CHOLMOD are not analysed.",
+              assumptions=["POSIX semantics of pthread_cond_wait (atomically releases and re-acquires the mutex; spurious wake-ups allowed)",
+                           "trial 0 receives &mutex/&cv and the others are memcpy'd from it (checked): one mutex, one condition variable"])
+    P = core.load(tier=tier)
+    mt.run(P, C)
+    C.extra["units"] = sorted(P.units.keys())
+    return C.finish()
+
+
+TABLE = {"C18": c18, "C08": c08, "C12": c12}
 
 
 def run(prop, tier):
